@@ -80,7 +80,7 @@ func genScan(profile string, ending bool) func(seed uint64, r *rng.Rand) *Plan {
 							o.CloseAt = 1
 						}
 					case 1:
-						o.RenewMS = g.R.Range(1, 50)
+						o.RenewMS = g.R.Range(10, 60)
 						o.PauseMS = g.R.Range(0, 120)
 					case 2:
 						o.ScanClose = g.R.Chance(0.3)
@@ -283,11 +283,23 @@ func (w *World) checkC14() []Violation {
 						continue
 					}
 					if x.Kind == "ScanOpen" {
-						// the response is dropped unread if the scan's context had
-						// ended when the reader got to it
-						if cs := w.consumedStep(x); cs != 0 && (r.CancelStep == 0 || cs < r.CancelStep) {
+						// The scanner learned the id if the caller got rows of that
+						// very response, or if no context ended (a response that
+						// arrives together with a cancellation may be dropped by
+						// the reader or by the caller's select).
+						if cs := w.consumedStep(x); cs != 0 && r.CancelStep == 0 {
 							learned = true
 						}
+						for _, it := range r.Scan {
+							for _, cl := range it.Cells {
+								if cl.TS == x.Seq {
+									learned = true
+								}
+							}
+						}
+					}
+					if x.Kind == "ScanNext" || x.Kind == "ScanRenew" {
+						learned = true // the client used the id
 					}
 					if x.Kind == "ScanClose" && x.Server == sc.Server {
 						closeSent = true // a close for it reached the server that holds it
